@@ -176,7 +176,10 @@ def run_unit(verif, name, pid, tier, scratch):
                 O.cmds.append(Rm.cmd); O.smt_ms += Rm.smt_ms
                 # only obligations that hold on the unmutated text count (known findings and clauses failing anyway do not)
                 rec["by"] = sorted({d.name(name) for d in Rm.diags} - kf_names - {d.name(name) for d in R.diags})[:6]
-                rec["killed"] = bool(rec["by"]) and not Rm.compile_errors and not Rm.tool_failure
+                # a resource-limit hit next to genuinely failed obligations does not undo the kill (the mutated function is simply
+                # harder for the solver); a resource-limit hit ALONE does not count as one
+                real = [b for b in rec["by"] if "resource_limit" not in b]
+                rec["killed"] = bool(real) and not Rm.compile_errors and (not Rm.tool_failure or Rm.tool_failure == "rlimit exceeded")
                 if Rm.compile_errors: rec["note"] = "mutant did not compile: " + Rm.compile_errors[0].message
             except U.UnitError as e:
                 rec["note"] = f"mutant anchor lost: {e}"
